@@ -133,6 +133,143 @@ def extract():
                 'extensions': sorted(rr.ALLOWED_TYPES)}
     attempt('container', container)
 
+    def print_sites():
+        """every call that writes to standard output, by (file, enclosing function) — Python ast"""
+        import ast
+        sites = set()
+        roots = [os.path.join(common.REPO, 'replay_parser.py')]
+        for root, dirs, files in os.walk(os.path.join(common.REPO, 'replay_unpack')):
+            dirs[:] = [d for d in dirs if d != '__pycache__']
+            roots += [os.path.join(root, f) for f in files if f.endswith('.py')]
+        for path in sorted(roots):
+            tree = ast.parse(open(path, encoding='utf-8').read())
+            rel = os.path.relpath(path, common.REPO)
+
+            def visit(node, fn):
+                for child in ast.iter_child_nodes(node):
+                    name = fn
+                    if isinstance(child, (ast.FunctionDef, ast.AsyncFunctionDef)):
+                        name = child.name
+                    if isinstance(child, ast.Call):
+                        f = child.func
+                        is_print = isinstance(f, ast.Name) and f.id in ('print', 'pprint')
+                        is_write = isinstance(f, ast.Attribute) and f.attr in ('write', 'writelines') and \
+                            ((isinstance(f.value, ast.Attribute) and f.value.attr in ('stdout', '__stdout__')) or
+                             (isinstance(f.value, ast.Name) and f.value.id in ('stdout',)))
+                        if is_print or is_write:
+                            sites.add((rel, fn))
+                    visit(child, name)
+            visit(tree, '<module>')
+        return sorted(sites)
+    attempt('printSites', print_sites)
+
+    def primitive_sites():
+        """call sites of code-executing / file / process primitives: distinct (primitive, enclosing function, module kind)"""
+        import ast
+        out = {}
+        roots = [os.path.join(common.REPO, 'replay_parser.py')]
+        for root, dirs, files in os.walk(os.path.join(common.REPO, 'replay_unpack')):
+            dirs[:] = [d for d in dirs if d != '__pycache__']
+            roots += [os.path.join(root, f) for f in files if f.endswith('.py')]
+        names = {'eval', 'exec', 'compile', '__import__', 'open', 'execfile', 'input'}
+        attrs = {('pickle', 'loads'), ('pickle', 'load'), ('cPickle', 'loads'), ('importlib', 'import_module'), ('os', 'system'), ('os', 'popen'),
+                 ('subprocess', 'Popen'), ('subprocess', 'run'), ('subprocess', 'call'), ('subprocess', 'check_output'), ('os', 'remove'),
+                 ('os', 'unlink'), ('shutil', 'rmtree'), ('marshal', 'loads'), ('etree', 'parse'), ('os', 'execv'), ('ctypes', 'CDLL'),
+                 ('yaml', 'load'), ('socket', 'socket'), ('builtins', 'eval'), ('runpy', 'run_path')}
+        for path in sorted(roots):
+            tree = ast.parse(open(path, encoding='utf-8').read())
+            rel = os.path.relpath(path, common.REPO)
+            kind = 'version' if '/versions/' in rel else rel
+            # local names bound to the package's restricted unpickler module
+            safe = set()
+            for node in ast.walk(tree):
+                if isinstance(node, ast.ImportFrom) and node.module == 'replay_unpack.core' and node.level == 0:
+                    safe |= {a.asname or a.name for a in node.names if a.name == 'safe_pickle'}
+                if isinstance(node, ast.Import):
+                    safe |= {a.asname for a in node.names if a.name == 'replay_unpack.core.safe_pickle' and a.asname}
+
+            def visit(node, fn):
+                for child in ast.iter_child_nodes(node):
+                    name = fn
+                    if isinstance(child, (ast.FunctionDef, ast.AsyncFunctionDef)):
+                        name = child.name
+                    if isinstance(child, ast.Call):
+                        f = child.func
+                        prim = None
+                        if isinstance(f, ast.Name) and f.id in names:
+                            prim = f.id
+                        elif isinstance(f, ast.Attribute) and isinstance(f.value, ast.Name) and f.value.id in safe:
+                            prim = 'safe_pickle.%s' % f.attr
+                        elif isinstance(f, ast.Attribute) and f.attr in ('load', 'loads') and not isinstance(f.value, ast.Name) and rel.endswith('safe_pickle.py'):
+                            prim = 'Unpickler.%s' % f.attr
+                        elif isinstance(f, ast.Attribute) and isinstance(f.value, ast.Name) and (f.value.id, f.attr) in attrs:
+                            prim = '%s.%s' % (f.value.id, f.attr)
+                        elif isinstance(f, ast.Attribute) and f.attr in ('loads', 'load') and isinstance(f.value, ast.Name) and 'pickle' in f.value.id.lower():
+                            prim = 'pickle.%s' % f.attr
+                        elif isinstance(f, ast.Name) and f.id == 'getattr' and len(child.args) >= 2 and not isinstance(child.args[1], ast.Constant):
+                            prim = 'getattr-dynamic'
+                        if prim:
+                            key = (prim, fn, kind)
+                            out[key] = out.get(key, 0) + 1
+                    visit(child, name)
+            visit(tree, '<module>')
+        return sorted((k[0], k[1], k[2], v) for k, v in out.items())
+    attempt('primitiveSites', primitive_sites)
+
+    def allowed_globals():
+        """the literal allow-list of replay_unpack/core/safe_pickle.py and the shape of its find_class guard"""
+        import ast
+        path = os.path.join(common.REPO, 'replay_unpack', 'core', 'safe_pickle.py')
+        if not os.path.exists(path):
+            return None
+        tree = ast.parse(open(path, encoding='utf-8').read())
+        out = None
+        for node in tree.body:
+            if isinstance(node, ast.Assign) and any(isinstance(t, ast.Name) and t.id == 'ALLOWED_GLOBALS' for t in node.targets):
+                v = node.value
+                if isinstance(v, ast.Call) and v.args:
+                    v = v.args[0]
+                out = sorted(tuple(x) for x in ast.literal_eval(v))
+        if out is None:
+            raise ValueError('ALLOWED_GLOBALS is not a literal')
+        import replay_unpack.core.safe_pickle as sp
+        if sorted(sp.ALLOWED_GLOBALS) != out:
+            raise ValueError('ALLOWED_GLOBALS at run time differs from its literal')
+        return out
+    attempt('allowedGlobals', allowed_globals)
+
+    def subscribed_callbacks():
+        """names of all functions any bundled controller registers as a callback"""
+        import importlib
+        from replay_unpack.core.entity import Entity
+        names = set()
+        for game in ('wows', 'wot', 'wowp'):
+            base = os.path.join(common.REPO, 'replay_unpack', 'clients', game, 'versions')
+            for v in sorted(os.listdir(base)):
+                if not os.path.isdir(os.path.join(base, v)):
+                    continue
+                try:
+                    m = importlib.import_module('replay_unpack.clients.%s.versions.%s' % (game, v))
+                    Entity.clear_subscriptions()
+                    m.BattleController()
+                except Exception:
+                    continue
+                for table in (Entity._methods_subscriptions, Entity._properties_subscriptions, Entity._nested_properties_subscription):
+                    for funcs in table.values():
+                        for f in funcs:
+                            names.add(getattr(f, '__name__', repr(f)))
+                Entity.clear_subscriptions()
+        return sorted(names)
+    attempt('subscribedCallbacks', subscribed_callbacks)
+
+    def parser_dump_binary():
+        import tempfile
+        import replay_parser
+        with tempfile.NamedTemporaryFile(suffix='.wowsreplay') as f:
+            p = replay_parser.ReplayParser(f.name)
+            return bool(p._reader._dump_binary_data)
+    attempt('parserDumpBinary', parser_dump_binary)
+
     return facts, broken
 
 
@@ -171,6 +308,24 @@ def render(facts):
         L.append('def magic : List Nat := %s' % lean_list(str(x) for x in c['magic']))
         L.append('def keys : List (String × List Nat) := %s' % lean_list('(%s, %s)' % (lean_str(e), lean_list(str(x) for x in k)) for e, k in c['keys']))
         L.append('def extensions : List String := %s' % lean_list(lean_str(e) for e in c['extensions']))
+    ps = facts.get('printSites')
+    if ps is not None:
+        L.append('/-- calls writing to standard output: (file, enclosing function) -/')
+        L.append('def printSites : List (String × String) := %s' % lean_list('(%s, %s)' % (lean_str(a), lean_str(b)) for a, b in ps))
+    pr = facts.get('primitiveSites')
+    if pr is not None:
+        L.append('/-- call sites of code-executing / file / process primitives: (primitive, enclosing function, module) -/')
+        L.append('def primitiveSites : List (String × String × String) := %s' % lean_list(
+            '(%s, %s, %s)' % (lean_str(a), lean_str(b), lean_str(c)) for a, b, c, n in pr))
+    ag = facts.get('allowedGlobals')
+    if ag is not None:
+        L.append('/-- `ALLOWED_GLOBALS` of replay_unpack/core/safe_pickle.py: (module, name) -/')
+        L.append('def allowedGlobals : List (String × String) := %s' % lean_list('(%s, %s)' % (lean_str(a), lean_str(b)) for a, b in ag))
+    sc = facts.get('subscribedCallbacks')
+    if sc is not None:
+        L.append('def subscribedCallbacks : List String := %s' % lean_list(lean_str(x) for x in sc))
+    if facts.get('parserDumpBinary') is not None:
+        L.append('def parserDumpBinary : Bool := %s' % lean_bool(facts['parserDumpBinary']))
     L.append('')
     L.append('end ReplayModel.Generated')
     return '\n'.join(L) + '\n'
